@@ -96,9 +96,8 @@ pub fn extract(inst: &mut Inst, names: &mut Vec<usize>) -> (Vec<Trace>, Vec<Stri
         for ri in 0..n {
             let w = build_state(inst, steps);
             let req = all_requests(&Ctx::of(&w))[ri].clone();
-            if sname == "block-open" && crate::obs::SIMULATING.contains(&req.method.as_str()) {
-                continue; // waits 5 s for the block to be finalised (modelled as always eventually enabled)
-            }
+            // (a simulation issued while a block is open waits for the block with a time-out; under the harness'
+            // virtual time the time-out fires at once, and a wait without one is caught by the call watchdog)
             v::lock_log_start();
             let out = inst.call(&req.method, req.params.clone());
             let ev = v::lock_log_take();
@@ -680,6 +679,7 @@ struct WorkerOut {
 }
 
 pub fn worker_main(tier: &str, shard: u64, nshards: u64, budget_s: f64) {
+    crate::inst::set_hang_limit(std::time::Duration::from_secs(if tier == "thorough" { 40 } else { 15 }));
     crate::inst::set_config("regtest", true);
     let deadline = Instant::now() + Duration::from_secs_f64(budget_s);
     let mut inst = Inst::fresh();
@@ -791,6 +791,24 @@ pub fn run(tier: &str, seed: u64) -> i32 {
     crate::inst::set_config("regtest", true);
     let thorough = tier == "thorough";
     let mut errors: Vec<String> = Vec::new();
+    // a handler that never returns (alone, in the extraction pass) is a request that is blocked forever
+    crate::inst::set_hang_limit(std::time::Duration::from_secs(if thorough { 40 } else { 15 }));
+    {
+        let tier = tier.to_string();
+        crate::inst::set_hang_handler(Box::new(move |what: &str| {
+            let v = Violation { property: "C11".into(), kind: "request-never-completes".into(), scenario: "locks".into(), start: "".into(), path: vec![trunc(what, 160)], steps: vec![], detail: format!("running alone on the real engine: {}", what) };
+            let mut ev = Evidence::new("C11", &tier, seed, "model_checking");
+            ev.coverage = json!({"states": 0, "transitions": 0, "traces_validated_against_impl": 0, "evaluations": 0, "distinct_nontrivial": 0, "rule": "stopped in the extraction pass: a handler did not return", "samples": [], "machinery_errors": []});
+            ev.violations = 1;
+            ev.write();
+            println!("VIOLATION property=C11 replay={}", crate::evidence::write_replay(&v));
+            println!("  {} {}", v.kind, trunc(&v.detail, 900));
+            crate::inst::cleanup_scratch();
+            use std::io::Write;
+            let _ = std::io::stdout().flush();
+            std::process::exit(1);
+        }));
+    }
     // assumption check
     let writer_pref = match rwlock_probe() {
         Ok(b) => b,
@@ -917,6 +935,7 @@ pub fn run(tier: &str, seed: u64) -> i32 {
                 sched.replay_divergences.extend(w.sched.replay_divergences);
                 sched.replayed_twice += w.sched.replayed_twice;
             }
+            Err(e) if e.starts_with("@@HUNG ") => sched.deadlocks.push(("a request did not return under the controlled scheduler".into(), e)),
             Err(e) => errors.push(e),
         }
     }
